@@ -203,25 +203,47 @@ func (f *ClosedSetsFinder) enqueueWants(cont func(want string, c *objects.Commit
 	alreadySeenCommits := map[string]struct{}{}
 wantsLoop:
 	for want := range f.Wants {
-		commitList := list.New()
 		tableList := list.New()
+		// breadth-first walk from want. Each commit is visited once and its
+		// first visit gives its distance from want.
+		visited := map[string]*objects.Commit{}
+		revisited := map[string]struct{}{}
 		q := list.New()
 		q.PushBack(commitDepth{[]byte(want), 0})
-		sums := [][]byte{}
 		for q.Len() > 0 {
 			cd := q.Remove(q.Front()).(commitDepth)
-			sums = append(sums, cd.sum)
-			if _, ok := alreadySeenCommits[string(cd.sum)]; ok {
+			key := string(cd.sum)
+			if _, ok := visited[key]; ok {
 				continue
 			}
-			if _, ok := f.commons[string(cd.sum)]; ok {
+			if _, ok := f.commons[key]; ok {
+				continue
+			}
+			if _, ok := alreadySeenCommits[key]; ok {
+				// commit is already listed for another want but its table
+				// might still be within depth of this want
+				if f.depth == 0 || cd.depth >= f.depth {
+					continue
+				}
+				if _, ok := revisited[key]; ok {
+					continue
+				}
+				revisited[key] = struct{}{}
+				c, err := objects.GetCommit(f.db, cd.sum)
+				if err != nil {
+					return err
+				}
+				tableList.PushFront(c.Table)
+				for _, p := range c.Parents {
+					q.PushBack(commitDepth{p, cd.depth + 1})
+				}
 				continue
 			}
 			c, err := objects.GetCommit(f.db, cd.sum)
 			if err != nil {
 				return err
 			}
-			commitList.PushFront(c)
+			visited[key] = c
 			if f.depth == 0 || cd.depth < f.depth {
 				tableList.PushFront(c.Table)
 			}
@@ -232,11 +254,38 @@ wantsLoop:
 				q.PushBack(commitDepth{p, cd.depth + 1})
 			}
 		}
-		// queue is exhausted mean everything is reachable from commons
+		// queue is exhausted mean everything is reachable from commons.
+		// List visited commits depth-first so that parents always come
+		// before their children.
+		commitList := list.New()
+		if c, ok := visited[want]; ok {
+			type frame struct {
+				c    *objects.Commit
+				next int
+			}
+			entered := map[string]struct{}{want: {}}
+			stack := []*frame{{c: c}}
+			for len(stack) > 0 {
+				fr := stack[len(stack)-1]
+				if fr.next < len(fr.c.Parents) {
+					p := string(fr.c.Parents[fr.next])
+					fr.next++
+					if pc, ok := visited[p]; ok {
+						if _, ok := entered[p]; !ok {
+							entered[p] = struct{}{}
+							stack = append(stack, &frame{c: pc})
+						}
+					}
+					continue
+				}
+				commitList.PushBack(fr.c)
+				stack = stack[:len(stack)-1]
+			}
+		}
 		f.commitLists = append(f.commitLists, commitList)
 		f.tableSumLists = append(f.tableSumLists, tableList)
-		for _, sum := range sums {
-			alreadySeenCommits[string(sum)] = struct{}{}
+		for sum := range visited {
+			alreadySeenCommits[sum] = struct{}{}
 		}
 	}
 	f.Wants = map[string]struct{}{}
